@@ -707,6 +707,7 @@ fn record_reach(st: &St, op: &FOp, n: usize, opname: &str, res: &mut RunResult) 
         }
     };
     match op {
+        FOp::Bin { k, o: BinOp::Mul, a, b, .. } | FOp::Pow { k, a, e: b, .. } if mont_probe(st, k, *a, *b, n, matches!(op, FOp::Pow { .. }), res) => {}
         FOp::Bin { k, form, dst: _, a, b, .. } => {
             res.reach(format!("{}|{}|{}", opname, cls(k, *a), cls(k, *b)));
             res.reach(format!("{}|form={:?}", opname, form));
@@ -779,6 +780,50 @@ fn record_reach(st: &St, op: &FOp, n: usize, opname: &str, res: &mut RunResult) 
             res.reach(opname.to_string());
         }
     }
+}
+
+/// "this rare condition was hit" probe: quotient digits of the Montgomery reduction of the
+/// product about to be computed (model-side; always returns false so the caller falls through)
+fn mont_probe(st: &St, k: &Fk, a: usize, b: usize, n: usize, is_pow: bool, res: &mut RunResult) -> bool {
+    let p = match k {
+        Fk::Fr => model::r(),
+        Fk::Fq => model::q(),
+    };
+    let (va, vb) = match k {
+        Fk::Fr => (st.fr.regs[a % n].1.clone(), st.fr.regs[b % n].1.clone()),
+        Fk::Fq => (st.fq.regs[a % n].1.clone(), st.fq.regs[b % n].1.clone()),
+    };
+    let rr = mont_r();
+    let (ma, mb) = if is_pow {
+        // pow(a, e) with e in {2, 3} squares the base first
+        if vb != BigUint::from(2u32) && vb != BigUint::from(3u32) {
+            return false;
+        }
+        let m = (&va * &rr) % p;
+        (m.clone(), m)
+    } else {
+        ((&va * &rr) % p, (&vb * &rr) % p)
+    };
+    // -p^-1 mod 2^256
+    let e = (BigUint::one() << 254) - 1u32;
+    let pinv = p.modpow(&e, &rr);
+    let ninv = (&rr - pinv) % &rr;
+    let m = (((&ma * &mb) % &rr) * ninv) % &rr;
+    let mut d = m.to_u64_digits();
+    d.resize(4, 0);
+    let kind = if is_pow { "square" } else { "mul" };
+    for (i, x) in d.iter().enumerate() {
+        if i == 0 {
+            continue;
+        }
+        if *x == 0 && !ma.is_zero() && !mb.is_zero() {
+            res.count(&format!("probe:mont_{}_zero_digit_row{}", kind, i));
+        }
+        if *x == u64::MAX {
+            res.count(&format!("probe:mont_{}_max_digit_row{}", kind, i));
+        }
+    }
+    false
 }
 
 fn monitors(st: &mut St, out: &StepOut) -> (Vec<u8>, Check) {
@@ -1183,6 +1228,58 @@ fn aimed_mul_pair(pr: &mut Prng, p: &BigUint) -> Option<(Vec<u8>, Vec<u8>)> {
     None
 }
 
+/// An operand A (canonical bytes) whose Montgomery *square* has chosen quotient digits:
+/// solve A^2 = -k*p mod 2^256 by Hensel lifting (needs the right side = 1 mod 8, arranged
+/// through the lowest digit of k).
+fn aimed_square(pr: &mut Prng, p: &BigUint) -> Option<Vec<u8>> {
+    let rr = mont_r();
+    for _ in 0..16 {
+        let mut k = BigUint::zero();
+        for _ in 0..4 {
+            let d = match pr.below(7) {
+                0 | 1 | 2 => 0u64,
+                3 => u64::MAX,
+                4 => 1,
+                _ => pr.next_u64(),
+            };
+            k = (k << 64) + BigUint::from(d);
+        }
+        // adjust the three lowest bits of k so that t0 = -k*p = 1 (mod 8)
+        let mut t0 = BigUint::zero();
+        let mut okk = false;
+        for adj in 0u32..8 {
+            let kk = ((&k >> 3) << 3) + adj;
+            t0 = (&rr - ((&kk * p) % &rr)) % &rr;
+            if (&t0 % 8u32) == BigUint::one() {
+                okk = true;
+                break;
+            }
+        }
+        if !okk {
+            continue;
+        }
+        // lift x with x^2 = t0 (mod 2^j), starting from j = 3
+        let mut x = BigUint::one();
+        for j in 3..256u32 {
+            let m = BigUint::one() << (j + 1);
+            if ((&x * &x) % &m) != (&t0 % &m) {
+                x += BigUint::one() << (j - 1);
+            }
+        }
+        let x = x % &rr;
+        // four roots: +-x, +-x + 2^255; take one below p
+        let cands = [x.clone(), (&rr - &x) % &rr, (&x + (BigUint::one() << 255)) % &rr, (&rr - &x + (BigUint::one() << 255)) % &rr];
+        let start = pr.usize_below(4);
+        for i in 0..4 {
+            let c = &cands[(start + i) % 4];
+            if c < p && !c.is_zero() && ((c * c) % &rr) == t0 {
+                return Some(aimed_bytes(c, p));
+            }
+        }
+    }
+    None
+}
+
 fn set_bits_of(p: &BigUint) -> Vec<usize> {
     (0..256).filter(|&i| p.bit(i as u64)).collect()
 }
@@ -1450,6 +1547,17 @@ pub fn generate(seed: u64) -> FldSpec {
                         if pr.chance(1, 3) {
                             ops.push(FOp::Bin { k, o: BinOp::Mul, form, dst: b, a: rb, b: ra });
                         }
+                    }
+                }
+                9 => {
+                    // aimed at the dedicated squaring routine (reached through pow): a base whose
+                    // Montgomery square has chosen quotient digits, raised to 2 (and to 3)
+                    if let Some(ba) = aimed_square(&mut pr, p) {
+                        let (ra, re) = (a, (a + 1) % n);
+                        ops.push(FOp::FromSlice { k, dst: ra, bytes: hex(&ba), via_try: false });
+                        let two = if pr.chance(1, 3) { 3u32 } else { 2u32 };
+                        ops.push(FOp::FromSlice { k, dst: re, bytes: hex(&be32(&BigUint::from(two))), via_try: false });
+                        ops.push(FOp::Pow { k, dst, a: ra, e: re });
                     }
                 }
                 12 => {
